@@ -288,6 +288,12 @@ fn exec_s<C: GenericConfig<D, F = F>, const COLS: usize, const PIS: usize>(case:
                     rep.case(sig, false);
                     continue;
                 }
+                if canonical(&t) == canonical(&tree) {
+                    // same field elements in another representation (the prover may emit p for 0): not a change of value
+                    rep.case(sig, false);
+                    rep.probe("c09.fault_changed_encoding_only");
+                    continue;
+                }
                 let p2: StarkProofWithPublicInputs<F, C, D> = match serde_json::from_value(t) {
                     Ok(p) => p,
                     Err(_) => {
